@@ -1,7 +1,7 @@
 """C17 - Async combinators resolve correctly for every completion order.
 
 Implementation under test (imported from $SCALES_REPO as it is now): scales.asynchronous.AsyncResult
-  WhenAll, WhenAny, Unwrap/_UnwrapHelper, ContinueWith (on the hub and spawned), Map, FromValue,
+  WhenAll, WhenAny, Unwrap/_UnwrapHelper, ContinueWith (on the hub and spawned), Map, FromValue, Run/RunInline (SafeLink),
 driven on real gevent AsyncResults in lock-step with the model coq/Model/Async.v: a case pre-completes a
 subset of the inputs, calls the combinator, then completes the other inputs in some order, letting the hub
 run (gevent.idle()) at chosen points; after the call and after every step the combined result's
@@ -30,6 +30,9 @@ RULE = ('WhenAll and WhenAny: every n <= 4 (quick) / n <= 5 (thorough) x every s
         'every pre-completed subset of levels x every completion order, plus random depth <= 10. ContinueWith: every '
         'continuation behaviour (returns/raises on success/failure) x on_hub x every history of <= 4 events. Map: '
         'fn returns a value / raises / returns a chain of depth <= 2 (3 thorough), every order of input and chain completions. '
+        'Run/RunInline (SafeLink): fn returns or raises, 0..2 hub runs. Whatever a continuation, mapped function or linked '
+        'function raises is raised once as each of: an Exception subclass, a BaseException-only subclass, a gevent.Timeout '
+        'subclass, a GreenletExit subclass. '
         'non-trivial = at least one completion is delivered to the combinator; distinct by canonical JSON of (case, observation)')
 TRUSTED = ['gevent 26.x AsyncResult/rawlink/hub callback order as summarised at the top of coq/Model/Async.v (re-checked on every '
            'run by the lock-step comparison with real gevent objects)',
@@ -38,11 +41,14 @@ ASSUMPTIONS = ['a gevent hub exists (otherwise gevent delivers links synchronous
                'every input is a distinct result that is completed at most once, by set() or set_exception(), with a '
                'truthy exception object (the theorems\' well-formedness hypothesis; histories outside it are only compared with the model)',
                'observation points are after gevent.idle() returned, i.e. the hub callback queue is drained',
-               'values are ints (None as a value is not distinguished from "no value" by AsyncResult.value)']
+               'values are ints (None as a value is not distinguished from "no value" by AsyncResult.value)',
+               'raised exceptions: Exception, BaseException-only, gevent.Timeout and GreenletExit subclasses are exercised and must '
+               'all be captured (the code uses a bare except); KeyboardInterrupt/SystemExit are not generated (if they escaped, '
+               'gevent would rethrow them into the harness greenlet)']
 
 MANIFEST = {
     'text': ('Theorems C17_schedule, C17_all, C17_all_sticky, C17_any, C17_any_sticky, C17_unwrap, C17_continue, C17_map, '
-             'C17_map_chain_live hold for every number of '
+             'C17_map_chain_live, C17_safelink hold for every number of '
              'inputs, every success/failure assignment, every completion order, every point at which the hub runs, every '
              'subset already complete at call time and every nesting depth of the Gallina transcription of WhenAll/WhenAny/'
              '_UnwrapHelper/ContinueWith/Map over a model of gevent AsyncResult links; the transcription is compared in '
@@ -72,9 +78,34 @@ def setup():
   import scales
   assert scales.__file__.startswith(C.REPO), scales.__file__
   from scales.asynchronous import AsyncResult
-  gevent.get_hub()          # without a hub gevent runs links synchronously
+  hub = gevent.get_hub()    # without a hub gevent runs links synchronously
   gevent.sleep(0)
-  _S.update(gevent=gevent, AR=AsyncResult)
+
+  # what a continuation / mapped function / linked function may raise: an ordinary Exception, an exception derived
+  # from BaseException only, a gevent.Timeout (what waiting with a deadline raises; BaseException-derived) and a
+  # GreenletExit.  KeyboardInterrupt/SystemExit are not used: if they escaped, the hub would rethrow them into the
+  # harness' own greenlet.
+  class TaggedBase(BaseException):
+    def __init__(self, tag):
+      BaseException.__init__(self, 'tagged-base %d' % tag)
+      self.tag = tag
+
+  class TaggedTimeout(gevent.Timeout):
+    def __init__(self, tag):
+      gevent.Timeout.__init__(self)        # never started
+      self.tag = tag
+
+  class TaggedExit(gevent.GreenletExit):
+    def __init__(self, tag):
+      gevent.GreenletExit.__init__(self, 'tagged-exit %d' % tag)
+      self.tag = tag
+
+  # anything that escapes a hub callback or a greenlet is reported here by gevent: counted per case, not printed
+  def quiet_print_exception(context, type_, value, tb):
+    _S['hub_errors'].append(getattr(type_, '__name__', str(type_)))
+  hub.print_exception = quiet_print_exception
+  _S.update(gevent=gevent, AR=AsyncResult, hub_errors=[],
+            XCLS={'exc': Tagged, 'base': TaggedBase, 'timeout': TaggedTimeout, 'exit': TaggedExit})
 
 
 # ---------------------------------------------------------------------------------------------
@@ -189,6 +220,25 @@ def _random_unwrap(r, kmax):
 
 
 KACTS = [['ret', 1], ['raise', 200]]
+XCLASSES = ['exc', 'base', 'timeout', 'exit']
+
+
+def _with_xcls(case, raises):
+  """The same case once per class of the raised exception (only when something can be raised)."""
+  if not raises:
+    return [case]
+  return [dict(case, xcls=x) for x in XCLASSES]
+
+
+def _exhaustive_runfn():
+  out = []
+  for inline in (True, False):
+    for runs in (0, 1, 2):
+      ops = [['run']] * runs
+      out.append({'kind': 'runfn', 'inline': inline, 'res': ['ret', 0], 'ops': ops})
+      out.append({'kind': 'runfn', 'inline': inline, 'res': ['ret', 7], 'ops': ops})
+      out += _with_xcls({'kind': 'runfn', 'inline': inline, 'res': ['raise', 207], 'ops': ops}, True)
+  return out
 
 
 def _exhaustive_cont():
@@ -205,7 +255,8 @@ def _exhaustive_cont():
           else:
             hs = [[], [['run']], [['run'], ['run']]]
           for h in hs:
-            out.append({'kind': 'cont', 'k': {'ok': kok, 'err': kerr}, 'on_hub': on_hub, 'pre': pre, 'ops': h})
+            out += _with_xcls({'kind': 'cont', 'k': {'ok': kok, 'err': kerr}, 'on_hub': on_hub, 'pre': pre, 'ops': h},
+                              kok[0] == 'raise' or kerr[0] == 'raise')
   # ill-formed: the input completed twice (model comparison only)
   for on_hub in (True, False):
     out.append({'kind': 'cont', 'k': {'ok': KACTS[0], 'err': KACTS[0]}, 'on_hub': on_hub, 'pre': None,
@@ -231,8 +282,8 @@ def _exhaustive_map(kmax):
                 if not pre_in:
                   rest = rest + [['in'] + inp]
                 for ops in _perms_with_runs(rest):
-                  out.append({'kind': 'map', 'f': f, 'depth': k, 'term': term, 'pre_in': inp if pre_in else None,
-                              'pre_levels': list(reversed(pre)), 'ops': ops})
+                  out += _with_xcls({'kind': 'map', 'f': f, 'depth': k, 'term': term, 'pre_in': inp if pre_in else None,
+                                     'pre_levels': list(reversed(pre)), 'ops': ops}, f[0] == 'raise')
   return out
 
 
@@ -258,8 +309,11 @@ def _random_map(r, kmax):
       ops.append(['run'])
   if r.random() < 0.8:
     ops.append(['run'])
-  return {'kind': 'map', 'f': f, 'depth': k, 'term': r.choice([['ok', r.randint(0, 9)], ['err', 100 + r.randint(0, 9)]]),
+  case = {'kind': 'map', 'f': f, 'depth': k, 'term': r.choice([['ok', r.randint(0, 9)], ['err', 100 + r.randint(0, 9)]]),
           'pre_in': inp if pre_in else None, 'pre_levels': pre, 'ops': ops}
+  if f[0] == 'raise':
+    case['xcls'] = r.choice(XCLASSES)
+  return case
 
 
 def gen_cases(tier, seed):
@@ -271,6 +325,7 @@ def gen_cases(tier, seed):
       out += _exhaustive_multi(kind, n)
   out += _exhaustive_unwrap(4 if thorough else 3)
   out += _exhaustive_cont()
+  out += _exhaustive_runfn()
   out += _exhaustive_map(3 if thorough else 2)
   nrand = 6000 if thorough else 900
   for i in range(nrand):
@@ -303,7 +358,7 @@ def search_cases(tier, seed, diverging):
 def _exc_tag(e):
   if e is None:
     return None
-  if isinstance(e, Tagged):
+  if type(e) in tuple(_S['XCLS'].values()):
     return e.tag
   return {'other': type(e).__name__}
 
@@ -333,6 +388,14 @@ def _do_complete(ar, how, x):
 
 def run_impl(case):
   setup()
+  del _S['hub_errors'][:]
+  obs = _run_impl(case)
+  _settle()
+  obs['hub_errors'] = list(_S['hub_errors'])
+  return obs
+
+
+def _run_impl(case):
   AR = _S['AR']
   k = case['kind']
   obs = []
@@ -393,7 +456,7 @@ def run_impl(case):
         act, base = spec['ok'], ar.value
       if act[0] == 'ret':
         return base + act[1]
-      raise Tagged(base + act[1])
+      raise _S['XCLS'][case.get('xcls', 'exc')](base + act[1])
     if case['pre'] is not None:
       _do_complete(src, case['pre'][0], case['pre'][1])
     ret = src.ContinueWith(fn) if case['on_hub'] else src.ContinueWith(fn, on_hub=False)
@@ -423,7 +486,7 @@ def run_impl(case):
       if f[0] == 'ret':
         return v + f[1]
       if f[0] == 'raise':
-        raise Tagged(v + f[1])
+        raise _S['XCLS'][case.get('xcls', 'exc')](v + f[1])
       return L[0]
     for j in case['pre_levels']:
       fill(j)
@@ -439,6 +502,24 @@ def run_impl(case):
       else:
         fill(op[1])
       obs.append([_snap(ret), list(calls)])
+    return {'steps': obs}
+  if k == 'runfn':
+    res = case['res']
+    calls = []
+
+    def fn0():
+      calls.append(1)
+      if res[0] == 'ret':
+        return res[1]
+      raise _S['XCLS'][case.get('xcls', 'exc')](res[1])
+    try:
+      ret = AR.RunInline(fn0) if case['inline'] else AR.Run(fn0)
+    except BaseException as e:       # RunInline let fn's exception through
+      return {'steps': [[[False, False, None, None], len(calls)]] * (1 + len(case['ops'])), 'escaped': type(e).__name__}
+    obs.append([_snap(ret), len(calls)])
+    for _op in case['ops']:
+      _settle()
+      obs.append([_snap(ret), len(calls)])
     return {'steps': obs}
   raise ValueError(k)
 
@@ -457,6 +538,8 @@ def well_formed(case):
     return len(ids) == len(set(ids)) and all(0 <= j <= case['depth'] for j in ids)
   if k == 'cont':
     return (case['pre'] is not None) + sum(1 for op in case['ops'] if op[0] == 'c') <= 1
+  if k == 'runfn':
+    return True
   if k == 'map':
     ids = list(case['pre_levels']) + [op[1] for op in case['ops'] if op[0] == 'lvl']
     nin = (case['pre_in'] is not None) + sum(1 for op in case['ops'] if op[0] == 'in')
@@ -668,12 +751,33 @@ def _mon_map(case, steps, v):
   _chain_monitor('map', depth, term, done0 + [0], case['ops'], lv, [s for s, _c in steps], v, gate=lambda t: t >= in_at)
 
 
+def _mon_runfn(case, obs, v):
+  res = ['ok', case['res'][1]] if case['res'][0] == 'ret' else ['err', case['res'][1]]
+  if 'escaped' in obs:
+    v.append(('runfn-exception-escaped', 'RunInline let %s raised by fn escape instead of capturing it' % obs['escaped']))
+    return
+  for t, (snap, ncalls) in enumerate(obs['steps']):
+    where = 'step %d (%s)' % (t, 'call' if t == 0 else 'hub run')
+    if ncalls > 1:
+      v.append(('runfn-called-twice', 'fn called %d times at %s' % (ncalls, where)))
+    if snap != [False, False, None, None]:
+      if ncalls < 1:
+        v.append(('runfn-result-without-call', 'result %s at %s but fn has not run' % (snap, where)))
+      elif snap != _want(res):
+        v.append(('runfn-result-not-captured', 'result %s at %s, fn gave %s' % (snap, where, res)))
+    elif case['inline'] or t > 0:
+      v.append(('runfn-not-complete', 'fn %s but the result is %s at %s' % ('ran' if ncalls else 'should have run', snap, where)))
+
+
 def monitor(case, obs):
   v = []
   if not well_formed(case):
     return v
   steps = obs['steps']
   k = case['kind']
+  if obs.get('hub_errors'):
+    v.append(('exception-escaped-to-hub', 'gevent reported %s escaping a callback/greenlet; whatever a continuation or '
+              'function raises must be captured in the returned result' % sorted(set(obs['hub_errors']))))
   if k == 'all':
     _mon_all(case, steps, v)
   elif k == 'any':
@@ -685,6 +789,8 @@ def monitor(case, obs):
     _mon_cont(case, steps, v)
   elif k == 'map':
     _mon_map(case, steps, v)
+  elif k == 'runfn':
+    _mon_runfn(case, obs, v)
   seen = set()
   out = []
   for s, m in v:
@@ -773,6 +879,11 @@ def to_coq(case, obs):
     exp = C.lst(['(%s, %s)' % (_obs_z(s), C.lst([_z(c) for c in calls])) for s, calls in steps])
     return 'CMap %s %s %s %s %s %s' % (fa, _chain(case['depth'], case['term']), pre, C.natlist(case['pre_levels']),
                                        C.lst([mev(op) for op in case['ops']]), exp)
+  if k == 'runfn':
+    res = _outcome('ok' if case['res'][0] == 'ret' else 'err', case['res'][1])
+    bad = BADZ if 'escaped' in obs else None
+    exp = C.lst(['(%s, %s)' % (_obs_z(s), _z(n if bad is None else bad)) for s, n in steps])
+    return 'CRunFn %s %s %s %s' % (C.blit(case['inline']), res, C.natlit(len(case['ops'])), exp)
   raise ValueError(k)
 
 
@@ -889,7 +1000,12 @@ def stats(cases, obs):
       _callback_branches(c, cb)
     if key in ('unwrap', 'map') and sum(1 for op in ops if op[0] == 'run') >= 3:
       relinks += 1
+  raised = {}
+  for c in cases:
+    if 'xcls' in c:
+      raised[c['xcls']] = raised.get(c['xcls'], 0) + 1
   return {'final_state_distribution': br, 'callback_branches_delivered': cb, 'largest_n_or_depth': nmax,
+          'cases_by_class_of_raised_exception': raised,
           'histories_ending_with_undelivered_completions': undelivered,
           'histories_with_several_completions_per_hub_run': batched,
           'chain_histories_with_three_or_more_hub_runs': relinks}
